@@ -274,7 +274,9 @@ class TreeSpec(SeqSpec):
         for i in range(n):
             mode = i % 5
             is_set = (i // 5) % 4 == 3
-            cases.append({"component": "tree", "cfg": {"mode": mode, "set": is_set}, "ops": self.gen_one(rng, tier, mode, is_set)})
+            # cmpscale: compare results stretched to MinInt/MaxInt (1) or to magnitudes >= 2^33 (2); only the sign is contractual
+            cases.append({"component": "tree", "cfg": {"mode": mode, "set": is_set, "cmpscale": rng.choice([0, 0, 1, 2])},
+                          "ops": self.gen_one(rng, tier, mode, is_set)})
         return cases
 
     def coq_case(self, case, obs):
@@ -480,7 +482,7 @@ class TreeBigIterSpec(TreeSpec):
                     ideal.iter_next(j)
             if len(ops) > 60000:
                 break
-        return {"component": "tree", "cfg": {"mode": mode, "set": False}, "ops": ops}
+        return {"component": "tree", "cfg": {"mode": mode, "set": False, "cmpscale": rng.choice([0, 1, 2])}, "ops": ops}
 
     def coq_case(self, case, obs):
         return ""
